@@ -508,6 +508,12 @@ class Translator:
 
     def tr_field(self, e, cx, k, want):
         base, f = e[1], e[2]
+        okey = self.opaque_key(e)
+        if okey is not None and okey in self.opaque and self.opaque[okey] is not None:
+            g, ty = self.opaque[okey]
+            if g not in [p for p, _ in cx.extra_params]:
+                cx.extra_params.append((g, ty))
+            return k(g, ty)
         if base[0] == "path" and len(base[1]) == 1:
             key = f"{base[1][0]}.{f}"
             if key in cx.env:
@@ -558,6 +564,18 @@ class Translator:
             if tc == "true":
                 return self.tr(th, cx, k, want)
             env0 = dict(cx.env)
+            # both branches effect-free single expressions: keep it an expression
+            def simple(b):
+                return b[0] != "block" or (not b[1] and b[2] is not None)
+            if simple(th) and simple(el):
+                try:
+                    ta, tya = self.pure(th[2] if th[0] == "block" else th, cx, want)
+                    cx.env = dict(env0)
+                    tb, tyb = self.pure(el[2] if el[0] == "block" else el, cx, want)
+                    cx.env = env0
+                    return k(f"(if {tc} then {ta} else {tb})", tya if tya is not None else tyb)
+                except Unsupported:
+                    cx.env = dict(env0)
             a = self.tr(th, cx, k, want)
             cx.env = dict(env0)
             b = self.tr(el, cx, k, want)
@@ -974,6 +992,11 @@ def find_extract(body, spec):
                     if isinstance(y, tuple):
                         walk(y)
     walk(body)
+    if kind == "tuple0":
+        tail = body[2]
+        if tail is not None and tail[0] == "tuple" and tail[1]:
+            return tail[1][0]
+        return None
     if kind in ("let", "callarg"):
         return found[0] if found else None
     return found[key] if len(found) > key else None
